@@ -78,38 +78,538 @@ Proof.
   apply Z.div_le_upper_bound; [lia|]. nia.
 Qed.
 
-Lemma sdiv_correct x y : word x -> word y -> impl_op SDIV x y 0 = spec_op SDIV x y 0.
+Lemma u_neg_of_signed q : u_neg q = of_signed (- q).
+Proof. unfold u_neg, u_sub, of_signed. f_equal. Qed.
+
+Lemma u_neg_word x : word x -> u_neg x = if x =? 0 then 0 else W - x.
+Proof. exact (u_neg_spec x). Qed.
+
+Lemma sdiv_correct x y z : word x -> word y -> impl_op SDIV x y z = spec_op SDIV x y z.
 Proof.
   intros Hx Hy. cbn [impl_op spec_op]. unfold u_sdiv. word_facts.
   pose proof Hx as Hx'. pose proof Hy as Hy'. unfold word in Hx', Hy'.
   destruct (u_sign_cases x Hx) as [[-> Sx]|[[Hxr Sx]|[Hxr Sx]]];
   destruct (u_sign_cases y Hy) as [[-> Sy]|[[Hyr Sy]|[Hyr Sy]]];
-  rewrite ?Sx, ?Sy; cbn [Z.ltb Z.compare Z.eqb];
-  rewrite ?u_neg_spec by (unfold word; lia);
-  try rewrite (to_signed_nonneg x) by (unfold word; lia);
-  try rewrite (to_signed_neg x) by (unfold word; lia);
-  try rewrite (to_signed_nonneg y) by (unfold word; lia);
-  try rewrite (to_signed_neg y) by (unfold word; lia).
-  all: repeat match goal with |- context [?a =? 0] =>
-         destruct (Z.eqb_spec a 0); try lia end.
-  all: rewrite ?u_div_spec by lia.
-  all: repeat match goal with |- context [?a =? 0] =>
-         destruct (Z.eqb_spec a 0); try lia end.
-  all: rewrite ?u_neg_spec by (unfold word; try lia;
-         match goal with |- context [?a / ?b] => pose proof (div_le_self a b); lia end).
-  all: rewrite ?Z.quot_0_l by lia; rewrite ?Z.div_0_l by lia; try reflexivity.
+  rewrite ?Sx, ?Sy; cbn [Z.ltb Z.compare Z.eqb].
+  - (* 0 / 0 *) reflexivity.
+  - (* 0 / pos *)
+    destruct (Z.eqb_spec y 0); [lia|].
+    rewrite (u_neg_word 0) by (unfold word; lia). cbn [Z.eqb].
+    rewrite u_div_spec by lia. destruct (Z.eqb_spec y 0); [lia|].
+    rewrite Z.div_0_l by lia. rewrite to_signed_nonneg by (unfold word; lia).
+    rewrite Z.quot_0_l; [reflexivity|]. rewrite to_signed_nonneg by (unfold word; lia). lia.
+  - (* 0 / neg *)
+    destruct (Z.eqb_spec y 0); [lia|].
+    rewrite (u_neg_word 0) by (unfold word; lia). cbn [Z.eqb].
+    rewrite (u_neg_word y) by (unfold word; lia). destruct (Z.eqb_spec y 0); [lia|].
+    rewrite u_div_spec by lia. destruct (Z.eqb_spec (W - y) 0); [lia|].
+    rewrite Z.div_0_l by lia. rewrite (to_signed_nonneg 0) by (unfold word; lia).
+    rewrite Z.quot_0_l; [reflexivity|]. rewrite to_signed_neg by (unfold word; lia). lia.
+  - (* pos / 0 *)
+    rewrite (u_neg_word 0) by (unfold word; lia). cbn [Z.eqb].
+    rewrite u_div_spec by lia. reflexivity.
   - (* pos / pos *)
+    destruct (Z.eqb_spec y 0); [lia|].
+    rewrite u_div_spec by lia. destruct (Z.eqb_spec y 0); [lia|].
+    rewrite !to_signed_nonneg by (unfold word; lia).
     rewrite Z.quot_div_nonneg by lia. pose proof (div_le_self x y). rewrite of_signed_small; lia.
   - (* pos / neg *)
+    destruct (Z.eqb_spec y 0); [lia|].
+    rewrite u_neg_of_signed. rewrite (u_neg_word y) by (unfold word; lia).
+    destruct (Z.eqb_spec y 0); [lia|].
+    rewrite u_div_spec by lia. destruct (Z.eqb_spec (W - y) 0); [lia|].
+    rewrite to_signed_nonneg by (unfold word; lia). rewrite to_signed_neg by (unfold word; lia).
     replace (y - W) with (- (W - y)) by lia. rewrite Z.quot_opp_r by lia.
-    rewrite Z.quot_div_nonneg by lia. pose proof (div_le_self x (W - y)).
-    rewrite of_signed_opp0 by lia. reflexivity.
+    rewrite Z.quot_div_nonneg by lia. reflexivity.
+  - (* neg / 0 *)
+    rewrite u_neg_of_signed. rewrite u_div_spec; [reflexivity| |lia].
+    rewrite u_neg_word by (unfold word; lia). destruct (Z.eqb_spec x 0); lia.
   - (* neg / pos *)
+    destruct (Z.eqb_spec y 0); [lia|].
+    rewrite u_neg_of_signed. rewrite (u_neg_word x) by (unfold word; lia).
+    destruct (Z.eqb_spec x 0); [lia|].
+    rewrite u_div_spec by lia. destruct (Z.eqb_spec y 0); [lia|].
+    rewrite to_signed_neg by (unfold word; lia). rewrite to_signed_nonneg by (unfold word; lia).
     replace (x - W) with (- (W - x)) by lia. rewrite Z.quot_opp_l by lia.
-    rewrite Z.quot_div_nonneg by lia. pose proof (div_le_self (W - x) y).
-    rewrite of_signed_opp0 by lia. reflexivity.
+    rewrite Z.quot_div_nonneg by lia. reflexivity.
   - (* neg / neg *)
+    destruct (Z.eqb_spec y 0); [lia|].
+    rewrite (u_neg_word x), (u_neg_word y) by (unfold word; lia).
+    destruct (Z.eqb_spec x 0); [lia|]. destruct (Z.eqb_spec y 0); [lia|].
+    rewrite u_div_spec by lia. destruct (Z.eqb_spec (W - y) 0); [lia|].
+    rewrite !to_signed_neg by (unfold word; lia).
     replace (x - W) with (- (W - x)) by lia. replace (y - W) with (- (W - y)) by lia.
     rewrite Z.quot_opp_opp by lia. rewrite Z.quot_div_nonneg by lia.
     pose proof (div_le_self (W - x) (W - y)). rewrite of_signed_small; lia.
+Qed.
+
+Lemma smod_correct x y z : word x -> word y -> impl_op SMOD x y z = spec_op SMOD x y z.
+Proof.
+  intros Hx Hy. cbn [impl_op spec_op]. unfold u_smod. word_facts.
+  pose proof Hx as Hx'. pose proof Hy as Hy'. unfold word in Hx', Hy'.
+  destruct (u_sign_cases x Hx) as [[-> Sx]|[[Hxr Sx]|[Hxr Sx]]];
+  destruct (u_sign_cases y Hy) as [[-> Sy]|[[Hyr Sy]|[Hyr Sy]]];
+  rewrite ?Sx, ?Sy; cbn [Z.eqb Pos.eqb].
+  - reflexivity.
+  - destruct (Z.eqb_spec y 0); [lia|]. rewrite u_mod_spec by lia.
+    destruct (Z.eqb_spec y 0); [lia|]. rewrite Z.mod_0_l by lia.
+    rewrite (to_signed_nonneg 0) by (unfold word; lia). rewrite Z.rem_0_l; [reflexivity|].
+    rewrite to_signed_nonneg by (unfold word; lia). lia.
+  - destruct (Z.eqb_spec y 0); [lia|]. rewrite (u_neg_word y) by (unfold word; lia).
+    destruct (Z.eqb_spec y 0); [lia|]. rewrite u_mod_spec by lia.
+    destruct (Z.eqb_spec (W - y) 0); [lia|]. rewrite Z.mod_0_l by lia.
+    rewrite (to_signed_nonneg 0) by (unfold word; lia). rewrite Z.rem_0_l; [reflexivity|].
+    rewrite to_signed_neg by (unfold word; lia). lia.
+  - rewrite u_mod_spec by lia. reflexivity.
+  - destruct (Z.eqb_spec y 0); [lia|]. rewrite u_mod_spec by lia.
+    destruct (Z.eqb_spec y 0); [lia|]. rewrite !to_signed_nonneg by (unfold word; lia).
+    rewrite Z.rem_mod_nonneg by lia. pose proof (Z.mod_pos_bound x y). rewrite of_signed_small; lia.
+  - destruct (Z.eqb_spec y 0); [lia|]. rewrite (u_neg_word y) by (unfold word; lia).
+    destruct (Z.eqb_spec y 0); [lia|]. rewrite u_mod_spec by lia.
+    destruct (Z.eqb_spec (W - y) 0); [lia|].
+    rewrite to_signed_nonneg by (unfold word; lia). rewrite to_signed_neg by (unfold word; lia).
+    replace (y - W) with (- (W - y)) by lia. rewrite Z.rem_opp_r by lia.
+    rewrite Z.rem_mod_nonneg by lia. pose proof (Z.mod_pos_bound x (W - y)). rewrite of_signed_small; lia.
+  - rewrite u_neg_of_signed. rewrite u_mod_spec; [reflexivity| |lia].
+    rewrite u_neg_word by (unfold word; lia). destruct (Z.eqb_spec x 0); lia.
+  - destruct (Z.eqb_spec y 0); [lia|]. rewrite u_neg_of_signed.
+    rewrite (u_neg_word x) by (unfold word; lia). destruct (Z.eqb_spec x 0); [lia|].
+    rewrite u_mod_spec by lia. destruct (Z.eqb_spec y 0); [lia|].
+    rewrite to_signed_neg by (unfold word; lia). rewrite to_signed_nonneg by (unfold word; lia).
+    replace (x - W) with (- (W - x)) by lia. rewrite Z.rem_opp_l by lia.
+    rewrite Z.rem_mod_nonneg by lia. reflexivity.
+  - destruct (Z.eqb_spec y 0); [lia|]. rewrite u_neg_of_signed.
+    rewrite (u_neg_word x), (u_neg_word y) by (unfold word; lia).
+    destruct (Z.eqb_spec x 0); [lia|]. destruct (Z.eqb_spec y 0); [lia|].
+    rewrite u_mod_spec by lia. destruct (Z.eqb_spec (W - y) 0); [lia|].
+    rewrite !to_signed_neg by (unfold word; lia).
+    replace (x - W) with (- (W - x)) by lia. replace (y - W) with (- (W - y)) by lia.
+    rewrite Z.rem_opp_r by lia. rewrite Z.rem_opp_l by lia.
+    rewrite Z.rem_mod_nonneg by lia. reflexivity.
+Qed.
+
+Lemma addmod_correct x y z : word x -> word y -> word z -> impl_op ADDMOD x y z = spec_op ADDMOD x y z.
+Proof.
+  unfold word. intros Hx Hy Hz. cbn [impl_op spec_op]. unfold u_addmod. word_facts.
+  destruct (Z.eqb_spec z 0); [reflexivity|].
+  destruct (Z.leb_spec W (x + y)); [reflexivity|].
+  rewrite (Z.mod_small (x + y)) by lia. rewrite u_mod_spec by lia.
+  destruct (Z.eqb_spec z 0); [lia|reflexivity].
+Qed.
+
+Lemma mulmod_correct x y z : word x -> word y -> word z -> impl_op MULMOD x y z = spec_op MULMOD x y z.
+Proof.
+  unfold word. intros Hx Hy Hz. cbn [impl_op spec_op]. unfold u_mulmod. word_facts.
+  destruct (Z.eqb_spec z 0) as [->|Hz0]; [rewrite !orb_true_r; reflexivity|]. rewrite orb_false_r.
+  destruct (Z.eqb_spec x 0) as [->|Hx0]; cbn [orb]; [rewrite Z.mul_0_l, Z.mod_0_l by lia; reflexivity|].
+  destruct (Z.eqb_spec y 0) as [->|Hy0]; cbn [orb]; [rewrite Z.mul_0_r, Z.mod_0_l by lia; reflexivity|].
+  destruct (Z.eqb_spec (x * y / W) 0) as [Hq|Hq]; [|reflexivity].
+  assert (0 <= x * y) by nia.
+  assert (x * y < W).
+  { apply Z.div_small_iff in Hq; lia. }
+  rewrite (Z.mod_small (x * y)) by lia. rewrite u_mod_spec by lia.
+  destruct (Z.eqb_spec z 0); [lia|reflexivity].
+Qed.
+
+Lemma slt_correct x y z : word x -> word y -> impl_op SLT x y z = spec_op SLT x y z.
+Proof.
+  intros Hx Hy. cbn [impl_op spec_op]. unfold u_slt, u_lt. word_facts. f_equal.
+  pose proof Hx as Hx'. pose proof Hy as Hy'. unfold word in Hx', Hy'.
+  destruct (u_sign_cases x Hx) as [[-> Sx]|[[Hxr Sx]|[Hxr Sx]]];
+  destruct (u_sign_cases y Hy) as [[-> Sy]|[[Hyr Sy]|[Hyr Sy]]];
+  rewrite ?Sx, ?Sy; cbn [Z.leb Z.ltb Z.compare andb];
+  rewrite ?(to_signed_nonneg 0) by (unfold word; lia);
+  try rewrite (to_signed_nonneg x) by (unfold word; lia);
+  try rewrite (to_signed_neg x) by (unfold word; lia);
+  try rewrite (to_signed_nonneg y) by (unfold word; lia);
+  try rewrite (to_signed_neg y) by (unfold word; lia);
+  try reflexivity;
+  repeat match goal with |- context [?a <? ?b] => destruct (Z.ltb_spec a b) end; try reflexivity; lia.
+Qed.
+
+Lemma sgt_correct x y z : word x -> word y -> impl_op SGT x y z = spec_op SGT x y z.
+Proof.
+  intros Hx Hy. cbn [impl_op spec_op]. unfold u_sgt, u_gt, u_lt. word_facts. f_equal.
+  pose proof Hx as Hx'. pose proof Hy as Hy'. unfold word in Hx', Hy'.
+  destruct (u_sign_cases x Hx) as [[-> Sx]|[[Hxr Sx]|[Hxr Sx]]];
+  destruct (u_sign_cases y Hy) as [[-> Sy]|[[Hyr Sy]|[Hyr Sy]]];
+  rewrite ?Sx, ?Sy; cbn [Z.leb Z.ltb Z.compare andb];
+  rewrite ?(to_signed_nonneg 0) by (unfold word; lia);
+  try rewrite (to_signed_nonneg x) by (unfold word; lia);
+  try rewrite (to_signed_neg x) by (unfold word; lia);
+  try rewrite (to_signed_nonneg y) by (unfold word; lia);
+  try rewrite (to_signed_neg y) by (unfold word; lia);
+  try reflexivity;
+  repeat match goal with |- context [?a <? ?b] => destruct (Z.ltb_spec a b) end; try reflexivity; lia.
+Qed.
+
+(* ---- bit-level helpers ------------------------------------------------------------------------ *)
+
+(* low part below bit k and a multiple of 2^k do not interact: OR is addition *)
+Lemma lor_split l h k : 0 <= k -> 0 <= l < 2 ^ k -> 0 <= h -> Z.lor l (h * 2 ^ k) = l + h * 2 ^ k.
+Proof.
+  intros Hk Hl Hh. apply Z.bits_inj'. intros i Hi.
+  rewrite Z.lor_spec.
+  assert (P : 0 < 2 ^ k) by (apply Z.pow_pos_nonneg; lia).
+  destruct (Z.lt_ge_cases i k) as [Hik|Hik].
+  - rewrite <- (Z.mod_pow2_bits_low (l + h * 2 ^ k) k i) by lia.
+    rewrite Z.mod_add by lia. rewrite Z.mod_small by lia.
+    rewrite Z.mul_pow2_bits_low by lia. apply orb_false_r.
+  - assert (Hl0 : Z.testbit l i = false).
+    { destruct (Z.eq_dec l 0) as [->|]; [apply Z.testbit_0_l|].
+      apply Z.bits_above_log2; [lia|].
+      apply Z.log2_lt_pow2; [lia|]. apply Z.lt_le_trans with (2 ^ k); [lia|].
+      apply Z.pow_le_mono_r; lia. }
+    rewrite Hl0. cbn [orb]. replace i with ((i - k) + k) at 2 by lia.
+    rewrite <- (Z.div_pow2_bits (l + h * 2 ^ k) k (i - k)) by lia.
+    rewrite Z.div_add by lia. rewrite Z.div_small by lia. cbn [Z.add].
+    rewrite Z.mul_pow2_bits by lia. reflexivity.
+Qed.
+
+Lemma word_high_bits x i : word x -> 256 <= i -> Z.testbit x i = false.
+Proof.
+  unfold word. rewrite W_val. intros Hx Hi.
+  rewrite <- (Z.mod_small x (2 ^ 256)) by lia. apply Z.mod_pow2_bits_high. lia.
+Qed.
+
+Lemma not_correct x y z : word x -> impl_op NOT x y z = spec_op NOT x y z.
+Proof.
+  intros Hx. cbn [impl_op spec_op]. pose proof Hx as Hx'. unfold word in Hx'. rewrite W_val in *.
+  replace (2 ^ 256 - 1 - x) with ((Z.lnot x) mod 2 ^ 256).
+  2:{ unfold Z.lnot. replace (Z.pred (- x)) with ((2 ^ 256 - 1 - x) + (-1) * 2 ^ 256) by lia.
+      rewrite Z.mod_add by lia. apply Z.mod_small. lia. }
+  apply Z.bits_inj'. intros i Hi. rewrite Z.lxor_spec.
+  replace (2 ^ 256 - 1) with (Z.ones 256) by reflexivity.
+  destruct (Z.lt_ge_cases i 256).
+  - rewrite Z.mod_pow2_bits_low by lia. rewrite Z.lnot_spec by lia.
+    rewrite Z.ones_spec_low by lia. apply xorb_true_r.
+  - rewrite Z.mod_pow2_bits_high by lia. rewrite Z.ones_spec_high by lia.
+    rewrite (word_high_bits x i) by (unfold word; rewrite ?W_val; lia). reflexivity.
+Qed.
+
+Lemma pow2_256_le x : 256 <= x -> exists k, 0 < k /\ 2 ^ x = W * k.
+Proof.
+  intros. exists (2 ^ (x - 256)). split; [apply Z.pow_pos_nonneg; lia|].
+  rewrite W_val, <- Z.pow_add_r by lia. f_equal. lia.
+Qed.
+
+Lemma shl_correct x y z : word x -> word y -> impl_op SHL x y z = spec_op SHL x y z.
+Proof.
+  unfold word. intros Hx Hy. cbn [impl_op spec_op]. unfold u_lsh. word_facts.
+  destruct (Z.ltb_spec x 256).
+  - destruct (Z.leb_spec 256 x); [lia|reflexivity].
+  - destruct (pow2_256_le x) as [k [Hk ->]]; [lia|].
+    replace (y * (W * k)) with ((y * k) * W) by lia. symmetry. apply Z.mod_mul. lia.
+Qed.
+
+Lemma shr_correct x y z : word x -> word y -> impl_op SHR x y z = spec_op SHR x y z.
+Proof.
+  unfold word. intros Hx Hy. cbn [impl_op spec_op]. unfold u_rsh. word_facts.
+  destruct (Z.ltb_spec x 256).
+  - destruct (Z.leb_spec 256 x); [lia|reflexivity].
+  - destruct (pow2_256_le x) as [k [Hk ->]]; [lia|].
+    symmetry. apply Z.div_small. nia.
+Qed.
+
+Lemma sar_correct x y z : word x -> word y -> impl_op SAR x y z = spec_op SAR x y z.
+Proof.
+  intros Hx Hy. cbn [impl_op spec_op]. unfold u_srsh, u_rsh. word_facts.
+  pose proof Hx as Hx'. pose proof Hy as Hy'. unfold word in Hx', Hy'.
+  assert (P : 0 < 2 ^ x) by (apply Z.pow_pos_nonneg; lia).
+  destruct (Z.ltb_spec y HALF) as [Hyn|Hyn].
+  - (* non-negative value *)
+    rewrite to_signed_nonneg by (unfold word; lia).
+    pose proof (div_le_self y (2 ^ x)).
+    rewrite of_signed_small by lia.
+    assert (S : 0 <=? u_sign y = true).
+    { destruct (u_sign_cases y Hy) as [[_ ->]|[[_ ->]|[? _]]]; [reflexivity|reflexivity|lia]. }
+    rewrite S.
+    assert (Big : 256 <= x -> y / 2 ^ x = 0).
+    { intros. destruct (pow2_256_le x) as [k [Hk ->]]; [lia|]. apply Z.div_small. nia. }
+    destruct (Z.ltb_spec 256 x); [symmetry; apply Big; lia|].
+    destruct (Z.leb_spec 256 x); [symmetry; apply Big; lia|reflexivity].
+  - (* negative value *)
+    rewrite to_signed_neg by (unfold word; lia).
+    assert (S : 0 <=? u_sign y = false).
+    { destruct (u_sign_cases y Hy) as [[? _]|[[? _]|[_ ->]]]; [lia|lia|reflexivity]. }
+    rewrite S.
+    assert (Big : 256 <= x -> of_signed ((y - W) / 2 ^ x) = W - 1).
+    { intros. destruct (pow2_256_le x) as [k [Hk E]]; [lia|].
+      assert ((y - W) / 2 ^ x = -1).
+      { symmetry. apply Z.div_unique with (r := y - W + 2 ^ x); nia. }
+      rewrite H3. apply (of_signed_opp 1). lia. }
+    destruct (Z.ltb_spec 256 x); [symmetry; apply Big; lia|].
+    destruct (Z.leb_spec 256 x); [symmetry; apply Big; lia|].
+    (* 0 <= x < 256 *)
+    assert (EW : W = 2 ^ (256 - x) * 2 ^ x) by (rewrite W_val, <- Z.pow_add_r by lia; f_equal; lia).
+    assert (Q : 0 < 2 ^ (256 - x)) by (apply Z.pow_pos_nonneg; lia).
+    replace (y - W) with (y + (- 2 ^ (256 - x)) * 2 ^ x) by lia.
+    rewrite Z.div_add by lia.
+    assert (0 <= y / 2 ^ x < 2 ^ (256 - x)).
+    { split; [apply Z.div_pos; lia|]. apply Z.div_lt_upper_bound; lia. }
+    replace (W - 2 ^ (256 - x)) with ((2 ^ x - 1) * 2 ^ (256 - x)) by lia.
+    rewrite lor_split by lia.
+    replace (y / 2 ^ x + - 2 ^ (256 - x)) with (- (2 ^ (256 - x) - y / 2 ^ x)) by lia.
+    rewrite of_signed_opp by nia. lia.
+Qed.
+
+(* ---- BYTE ------------------------------------------------------------------------------------- *)
+
+Lemma byte_extract Y s : 0 <= Y -> 0 <= s <= 56 ->
+  Z.shiftr (Z.land (Y mod 2 ^ 64) (Z.shiftl 255 s)) s = (Y / 2 ^ s) mod 256.
+Proof.
+  intros HY Hs. rewrite Z.shiftr_land. rewrite Z.shiftr_shiftl_l by lia.
+  replace (s - s) with 0 by lia. rewrite Z.shiftl_0_r.
+  replace 255 with (Z.ones 8) by reflexivity. rewrite Z.land_ones by lia.
+  rewrite Z.shiftr_div_pow2 by lia. change (2 ^ 8) with 256.
+  replace 256 with (2 ^ 8) by reflexivity.
+  apply Z.bits_inj'. intros i Hi.
+  destruct (Z.lt_ge_cases i 8).
+  - rewrite !Z.mod_pow2_bits_low by lia. rewrite !Z.div_pow2_bits by lia.
+    apply Z.mod_pow2_bits_low. lia.
+  - rewrite !Z.mod_pow2_bits_high by lia. reflexivity.
+Qed.
+
+Lemma byte_correct x y z : word x -> word y -> impl_op BYTE x y z = spec_op BYTE x y z.
+Proof.
+  unfold word. intros Hx Hy. cbn [impl_op spec_op]. unfold u_byte, u_is_uint64.
+  destruct (Z.ltb_spec x 32) as [H32|H32].
+  2:{ rewrite andb_false_r. reflexivity. }
+  assert (x <? U64 = true) as -> by (apply Z.ltb_lt; change U64 with (2 ^ 64); lia).
+  cbn [andb].
+  assert (E : exists q r, x = 8 * q + r /\ 0 <= q <= 3 /\ 0 <= r <= 7).
+  { exists (x / 8), (x mod 8). pose proof (Z.div_mod x 8). pose proof (Z.mod_pos_bound x 8).
+    assert (0 <= x / 8 <= 3); [|lia]. split; [apply Z.div_pos; lia|].
+    apply Z.lt_succ_r. apply Z.div_lt_upper_bound; lia. }
+  destruct E as [q [r [-> [Hq Hr]]]].
+  replace ((8 * q + r) / 8) with q by (apply Z.div_unique with (r := r); lia).
+  replace ((8 * q + r) mod 8) with r by (apply Z.mod_unique with (q := q); lia).
+  replace (8 * (31 - (8 * q + r))) with (64 * (3 - q) + (56 - 8 * r)) by lia.
+  rewrite Z.pow_add_r by lia. rewrite <- Z.div_div by (try apply Z.pow_pos_nonneg; lia).
+  assert (M : Z.shiftr 18374686479671623680 (8 * r) = Z.shiftl 255 (56 - 8 * r)).
+  { assert (r = 0 \/ r = 1 \/ r = 2 \/ r = 3 \/ r = 4 \/ r = 5 \/ r = 6 \/ r = 7) by lia.
+    repeat match goal with H : _ \/ _ |- _ => destruct H end; subst r; reflexivity. }
+  rewrite M. change U64 with (2 ^ 64).
+  apply byte_extract; [|lia]. apply Z.div_pos; [lia|]. apply Z.pow_pos_nonneg; lia.
+Qed.
+
+(* ---- SIGNEXTEND ------------------------------------------------------------------------------- *)
+
+Lemma testbit_true_mod x k : 0 <= x -> 0 <= k ->
+  x mod 2 ^ (k + 1) = x mod 2 ^ k + 2 ^ k * Z.b2z (Z.testbit x k).
+Proof.
+  intros. replace (k + 1) with (Z.succ k) by lia. rewrite Z.pow_succ_r by lia. rewrite (Z.mul_comm 2).
+  rewrite Z.rem_mul_r by (try apply Z.pow_nonzero; lia).
+  rewrite Z.testbit_spec' by lia. reflexivity.
+Qed.
+
+Lemma signextend_correct x y z : word x -> word y -> impl_op SIGNEXTEND x y z = spec_op SIGNEXTEND x y z.
+Proof.
+  intros Hx Hy. cbn [impl_op spec_op]. unfold u_extendsign, spec_signextend. word_facts.
+  pose proof Hx as Hx'. pose proof Hy as Hy'. unfold word in Hx', Hy'.
+  destruct (Z.ltb_spec 31 x) as [Hb|Hb].
+  { destruct (Z.ltb_spec x 31); [lia|reflexivity]. }
+  set (k := x * 8 + 7).
+  assert (Hk : 0 <= k <= 255) by (unfold k; lia).
+  assert (Pk : 0 < 2 ^ k) by (apply Z.pow_pos_nonneg; lia).
+  assert (EW : W = 2 ^ (256 - k) * 2 ^ k) by (rewrite W_val, <- Z.pow_add_r by lia; f_equal; lia).
+  assert (Q : 0 < 2 ^ (256 - k)) by (apply Z.pow_pos_nonneg; lia).
+  assert (Q2 : 2 <= 2 ^ (256 - k)).
+  { replace 2 with (2 ^ 1) at 1 by reflexivity. apply Z.pow_le_mono_r; lia. }
+  assert (Emask : u_sub (u_lsh 1 k) 1 = 2 ^ k - 1).
+  { unfold u_lsh, u_sub. destruct (Z.leb_spec 256 k); [lia|].
+    rewrite Z.mul_1_l. assert (2 ^ k < W) by nia.
+    rewrite (Z.mod_small (2 ^ k)) by lia. apply Z.mod_small. lia. }
+  rewrite Emask.
+  (* both sides in terms of the low k bits of y *)
+  assert (Hlow := Z.mod_pos_bound y (2 ^ k) Pk).
+  assert (Eimpl1 : Z.lor y (W - 1 - (2 ^ k - 1)) = y mod 2 ^ k + (W - 2 ^ k)).
+  { replace (W - 1 - (2 ^ k - 1)) with ((2 ^ (256 - k) - 1) * 2 ^ k) by lia.
+    replace (y mod 2 ^ k + (W - 2 ^ k)) with (y mod 2 ^ k + (2 ^ (256 - k) - 1) * 2 ^ k) by lia.
+    rewrite <- lor_split by lia.
+    apply Z.bits_inj'. intros i Hi. rewrite !Z.lor_spec.
+    destruct (Z.lt_ge_cases i k).
+    - rewrite Z.mod_pow2_bits_low by lia. reflexivity.
+    - rewrite Z.mod_pow2_bits_high by lia. cbn [orb].
+      replace i with ((i - k) + k) at 2 3 by lia. rewrite Z.mul_pow2_bits by lia.
+      replace (2 ^ (256 - k) - 1) with (Z.ones (256 - k)) by (rewrite Z.ones_equiv; lia).
+      destruct (Z.lt_ge_cases i 256).
+      + rewrite Z.ones_spec_low by lia. apply orb_true_r.
+      + rewrite Z.ones_spec_high by lia. rewrite word_high_bits by (unfold word; lia). reflexivity. }
+  assert (Eimpl0 : Z.land y (2 ^ k - 1) = y mod 2 ^ k).
+  { replace (2 ^ k - 1) with (Z.ones k) by (rewrite Z.ones_equiv; lia). apply Z.land_ones. lia. }
+  (* the specification, for every b <= 31 *)
+  assert (Espec : (if x <? 31 then
+             of_signed (if y mod 2 ^ (8 * x + 8) <? 2 ^ (8 * x + 8) / 2
+                        then y mod 2 ^ (8 * x + 8) else y mod 2 ^ (8 * x + 8) - 2 ^ (8 * x + 8))
+           else y)
+          = if Z.testbit y k then y mod 2 ^ k + (W - 2 ^ k) else y mod 2 ^ k).
+  { replace (8 * x + 8) with (k + 1) by (unfold k; lia).
+    assert (E2 : 2 ^ (k + 1) / 2 = 2 ^ k).
+    { replace (k + 1) with (Z.succ k) by lia. rewrite Z.pow_succ_r by lia. rewrite Z.mul_comm. apply Z.div_mul. lia. }
+    pose proof (testbit_true_mod y k ltac:(lia) ltac:(lia)) as T.
+    destruct (Z.ltb_spec x 31) as [H31|H31].
+    - rewrite E2. destruct (Z.testbit y k); cbn [Z.b2z] in T.
+      + destruct (Z.ltb_spec (y mod 2 ^ (k + 1)) (2 ^ k)); [lia|].
+        rewrite T. replace (k + 1) with (Z.succ k) by lia. rewrite Z.pow_succ_r by lia.
+        replace (y mod 2 ^ k + 2 ^ k * 1 - 2 * 2 ^ k) with (- (2 ^ k - y mod 2 ^ k)) by lia.
+        rewrite of_signed_opp by nia. lia.
+      + destruct (Z.ltb_spec (y mod 2 ^ (k + 1)) (2 ^ k)); [|lia].
+        rewrite T. rewrite of_signed_small by nia. lia.
+    - assert (x = 31) by lia. assert (k = 255) by (unfold k; lia).
+      assert (EWk : W = 2 ^ (k + 1)) by (rewrite W_val; f_equal; lia).
+      rewrite <- EWk in T. rewrite (Z.mod_small y W) in T by lia.
+      assert (EH : 2 ^ k = HALF) by (rewrite HALF_val; f_equal; lia).
+      rewrite EH in *. destruct (Z.testbit y k); cbn [Z.b2z] in T; lia. }
+  rewrite Espec. destruct (Z.testbit y k); [exact Eimpl1 | exact Eimpl0].
+Qed.
+
+(* ---- EXP -------------------------------------------------------------------------------------- *)
+
+Lemma mul_mod_pow a b n : 0 <= n -> ((a mod W) * (b mod W) ^ n) mod W = (a * b ^ n) mod W.
+Proof.
+  intros. word_facts. rewrite Z.mul_mod by lia. rewrite <- (Zpower_mod b n W) by lia.
+  rewrite Z.mod_mod by lia. rewrite <- Z.mul_mod by lia. reflexivity.
+Qed.
+
+Lemma u_exp_loop_spec fuel : forall res mult e,
+  word res -> 0 <= e < 2 ^ Z.of_nat fuel ->
+  u_exp_loop fuel res mult e = (res * mult ^ e) mod W.
+Proof.
+  induction fuel as [|k IH]; intros res mult e Hres He; word_facts; unfold word in Hres.
+  - cbn in He. assert (e = 0) by lia. subst e. cbn [u_exp_loop].
+    rewrite Z.pow_0_r, Z.mul_1_r. symmetry. apply Z.mod_small. lia.
+  - cbn [u_exp_loop]. destruct (Z.eqb_spec e 0) as [->|He0].
+    + rewrite Z.pow_0_r, Z.mul_1_r. symmetry. apply Z.mod_small. lia.
+    + rewrite Nat2Z.inj_succ, Z.pow_succ_r in He by lia.
+      assert (He2 : 0 <= e / 2 < 2 ^ Z.of_nat k).
+      { split; [apply Z.div_pos; lia|]. apply Z.div_lt_upper_bound; lia. }
+      pose proof (Z.div_mod e 2 ltac:(lia)) as Ed.
+      assert (Epow : mult ^ e = (mult * mult) ^ (e / 2) * mult ^ (e mod 2)).
+      { rewrite Ed at 1. rewrite Z.pow_add_r by (try apply Z.mod_pos_bound; lia).
+        rewrite Z.pow_mul_r by lia. rewrite Z.pow_2_r. reflexivity. }
+      rewrite IH; [| |exact He2].
+      2:{ unfold word. destruct (Z.odd e); [apply Z.mod_pos_bound; lia|lia]. }
+      unfold u_mul. rewrite Epow. rewrite (Zmod_odd e).
+      destruct (Z.odd e).
+      * rewrite Z.pow_1_r. rewrite mul_mod_pow by lia. f_equal. lia.
+      * rewrite Z.pow_0_r, Z.mul_1_r.
+        rewrite <- (Z.mod_small res W) at 1 by lia. rewrite mul_mod_pow by lia. reflexivity.
+Qed.
+
+Lemma exp_correct x y z : word x -> word y -> impl_op EXP x y z = spec_op EXP x y z.
+Proof.
+  unfold word. intros Hx Hy. cbn [impl_op spec_op]. unfold u_exp. word_facts.
+  rewrite u_exp_loop_spec.
+  - rewrite Z.mul_1_l. reflexivity.
+  - unfold word. lia.
+  - change (Z.of_nat 256) with 256. rewrite <- W_val. lia.
+Qed.
+
+(* ---- all opcodes ------------------------------------------------------------------------------ *)
+
+Lemma div_correct x y z : word x -> word y -> impl_op DIV x y z = spec_op DIV x y z.
+Proof. unfold word. intros. cbn [impl_op spec_op]. apply u_div_spec; lia. Qed.
+Lemma mod_correct x y z : word x -> word y -> impl_op MOD x y z = spec_op MOD x y z.
+Proof. unfold word. intros. cbn [impl_op spec_op]. apply u_mod_spec; lia. Qed.
+
+Theorem op_correct : forall o x y z, word x -> word y -> word z -> impl_op o x y z = spec_op o x y z.
+Proof.
+  intros o x y z Hx Hy Hz. destruct o.
+  - reflexivity.
+  - reflexivity.
+  - reflexivity.
+  - apply div_correct; assumption.
+  - apply sdiv_correct; assumption.
+  - apply mod_correct; assumption.
+  - apply smod_correct; assumption.
+  - apply addmod_correct; assumption.
+  - apply mulmod_correct; assumption.
+  - apply exp_correct; assumption.
+  - apply signextend_correct; assumption.
+  - reflexivity.
+  - reflexivity.
+  - apply slt_correct; assumption.
+  - apply sgt_correct; assumption.
+  - reflexivity.
+  - reflexivity.
+  - reflexivity.
+  - reflexivity.
+  - reflexivity.
+  - apply not_correct; assumption.
+  - apply byte_correct; assumption.
+  - apply shl_correct; assumption.
+  - apply shr_correct; assumption.
+  - apply sar_correct; assumption.
+Qed.
+
+(* results are words again *)
+Lemma land_word x y : word x -> word y -> word (Z.land x y).
+Proof.
+  unfold word. rewrite W_val. intros Hx Hy. split; [apply Z.land_nonneg; lia|].
+  destruct (Z.eq_dec (Z.land x y) 0) as [->|Hn]; [reflexivity|].
+  apply Z.log2_lt_pow2; [pose proof (Z.land_nonneg x y); lia|].
+  apply Z.le_lt_trans with (Z.min (Z.log2 x) (Z.log2 y)); [apply Z.log2_land; lia|].
+  destruct (Z.eq_dec x 0) as [->|]; [rewrite Z.land_0_l in Hn; lia|].
+  apply Z.min_lt_iff. left. apply Z.log2_lt_pow2; lia.
+Qed.
+Lemma lor_word x y : word x -> word y -> word (Z.lor x y).
+Proof.
+  unfold word. rewrite W_val. intros Hx Hy. split; [apply Z.lor_nonneg; lia|].
+  destruct (Z.eq_dec (Z.lor x y) 0) as [->|Hn]; [reflexivity|].
+  apply Z.log2_lt_pow2; [pose proof (Z.lor_nonneg x y); lia|].
+  rewrite Z.log2_lor by lia.
+  apply Z.max_lub_lt.
+  - destruct (Z.eq_dec x 0) as [->|]; [cbn; lia|]. apply Z.log2_lt_pow2; lia.
+  - destruct (Z.eq_dec y 0) as [->|]; [cbn; lia|]. apply Z.log2_lt_pow2; lia.
+Qed.
+Lemma lxor_word x y : word x -> word y -> word (Z.lxor x y).
+Proof.
+  unfold word. rewrite W_val. intros Hx Hy. split; [apply Z.lxor_nonneg; lia|].
+  destruct (Z.eq_dec (Z.lxor x y) 0) as [->|Hn]; [reflexivity|].
+  apply Z.log2_lt_pow2; [pose proof (Z.lxor_nonneg x y); lia|].
+  apply Z.le_lt_trans with (Z.max (Z.log2 x) (Z.log2 y)); [apply Z.log2_lxor; lia|].
+  apply Z.max_lub_lt.
+  - destruct (Z.eq_dec x 0) as [->|]; [cbn; lia|]. apply Z.log2_lt_pow2; lia.
+  - destruct (Z.eq_dec y 0) as [->|]; [cbn; lia|]. apply Z.log2_lt_pow2; lia.
+Qed.
+
+Lemma b2z_word b : word (b2z b).
+Proof. unfold word. word_facts. destruct b; cbn [b2z]; lia. Qed.
+
+Lemma mod_word a : word (a mod W).
+Proof. unfold word. word_facts. apply Z.mod_pos_bound. lia. Qed.
+
+Theorem spec_op_word : forall o x y z, word x -> word y -> word z -> word (spec_op o x y z).
+Proof.
+  intros o x y z Hx Hy Hz. pose proof Hx as Hx'. pose proof Hy as Hy'. pose proof Hz as Hz'.
+  unfold word in Hx', Hy', Hz'. word_facts.
+  destruct o; cbn [spec_op].
+  - apply mod_word.
+  - apply mod_word.
+  - apply mod_word.
+  - (* DIV *) destruct (Z.eqb_spec y 0); [unfold word; lia|]. pose proof (div_le_self x y). unfold word. lia.
+  - (* SDIV *) destruct (Z.eqb_spec y 0); [unfold word; lia|]. apply mod_word.
+  - (* MOD *) destruct (Z.eqb_spec y 0); [unfold word; lia|]. pose proof (Z.mod_pos_bound x y). unfold word. lia.
+  - (* SMOD *) destruct (Z.eqb_spec y 0); [unfold word; lia|]. apply mod_word.
+  - (* ADDMOD *) destruct (Z.eqb_spec z 0); [unfold word; lia|]. pose proof (Z.mod_pos_bound (x + y) z). unfold word. lia.
+  - (* MULMOD *) destruct (Z.eqb_spec z 0); [unfold word; lia|]. pose proof (Z.mod_pos_bound (x * y) z). unfold word. lia.
+  - apply mod_word.
+  - (* SIGNEXTEND *) unfold spec_signextend. destruct (x <? 31); [|assumption]. apply mod_word.
+  - apply b2z_word.
+  - apply b2z_word.
+  - apply b2z_word.
+  - apply b2z_word.
+  - apply b2z_word.
+  - apply b2z_word.
+  - apply land_word; assumption.
+  - apply lor_word; assumption.
+  - apply lxor_word; assumption.
+  - unfold word. lia.
+  - (* BYTE *) destruct (x <? 32); [|unfold word; lia].
+    pose proof (Z.mod_pos_bound (y / 2 ^ (8 * (31 - x))) 256 ltac:(lia)).
+    assert (256 < W) by (rewrite W_val; reflexivity). unfold word. lia.
+  - apply mod_word.
+  - (* SHR *) assert (0 < 2 ^ x) by (apply Z.pow_pos_nonneg; lia). pose proof (div_le_self y (2 ^ x)). unfold word. lia.
+  - apply mod_word.
 Qed.
